@@ -59,16 +59,21 @@ def gen_xyz(rnd, nframes, natoms, fmt):
     return blobs, frames
 
 
-def gen_trr(rnd, nframes, natoms, endian, double, with_v=True):
+def gen_trr(rnd, nframes, natoms, endian, double, with_v=True, pattern="uniform"):
+    """pattern: "uniform"; "f0": forces in the first frame only (nstfout larger than the run); "v-alt": velocities in every second
+    frame only (nstvout = 2 nstxout); "f-last": forces appear from the second frame on - the frames of one file differ in size."""
     frames, blobs = [], []
     f32 = (lambda v: float(np.float32(v))) if not double else float
     for t in range(nframes):
         x = [[f32(round(rnd.uniform(-9, 9), 3)) for _ in range(3)] for _ in range(natoms)]
-        v = [[f32(round(rnd.uniform(-2, 2), 3)) for _ in range(3)] for _ in range(natoms)] if with_v else None
+        has_v = with_v and not (pattern == "v-alt" and t % 2 == 1)
+        has_f = (pattern == "f0" and t == 0) or (pattern == "f-last" and t >= 1)
+        v = [[f32(round(rnd.uniform(-2, 2), 3)) for _ in range(3)] for _ in range(natoms)] if has_v else None
+        f = [[f32(round(rnd.uniform(-5, 5), 3)) for _ in range(3)] for _ in range(natoms)] if has_f else None
         box = [[f32(3.0 + 0.1 * t) if i == j else 0.0 for j in range(3)] for i in range(3)]
-        blob, _hs = writers.trr_frame(t, 0.002 * t, box, x, v, endian=endian, double=double)
+        blob, _hs = writers.trr_frame(t, 0.002 * t, box, x, v, f, endian=endian, double=double)
         blobs.append(blob)
-        frames.append({"x": np.array(x), "v": np.array(v) if with_v else None, "box": np.array(box)})
+        frames.append({"x": np.array(x), "v": np.array(v) if has_v else None, "box": np.array(box)})
     return blobs, frames
 
 
@@ -257,7 +262,7 @@ def job(args):
         elif kind == "xyz":
             blobs, frames = gen_xyz(rnd, spec["nframes"], spec["natoms"], spec["fmt"])
         else:
-            blobs, frames = gen_trr(rnd, spec["nframes"], spec["natoms"], spec["endian"], spec["double"], spec.get("with_v", True))
+            blobs, frames = gen_trr(rnd, spec["nframes"], spec["natoms"], spec["endian"], spec["double"], spec.get("with_v", True), spec.get("pattern", "uniform"))
         total = sum(len(b) for b in blobs)
         if cutlists == "all-single":
             cl = [[c] for c in range(0, total + 1)]
@@ -369,9 +374,12 @@ def main(tier, replay=None):
             jobs.append(("xyz", spec, "all-single"))
             jobs.append(("xyz", spec, ("pairs", 300 if q else 3000)))
             jobs.append(("xyz", dict(spec, nframes=3), ("abstract", seqs, 6)))
-        for i in range(4 if q else 16):
+        for i in range(7 if q else 22):
             spec = {"seed": rnd.randrange(10 ** 6), "nframes": rnd.choice([3, 4, 6]), "natoms": rnd.choice([9, 14, 30]),
                     "endian": "<>"[i % 2], "double": (i // 2) % 2 == 1, "with_v": i % 3 != 2}
+            if i % 4 == 3 or i >= 4:
+                spec["pattern"] = ["f0", "v-alt", "f-last"][i % 3]
+                spec["with_v"] = True
             jobs.append(("trr", spec, "all-single"))
             jobs.append(("trr", spec, ("pairs", 200 if q else 2000)))
             jobs.append(("trr", dict(spec, nframes=3), ("abstract", seqs, 6)))
